@@ -849,6 +849,24 @@ def b_reduce_display(p, q, r):
     m = p if p < q else q
     return m if m < r else r
 
+def _vp_windows(xs, n, inc):
+    for x in xs:
+        if x > n:
+            if inc:
+                yield x, n
+            return
+        yield x, x + 1
+def a_two_yields(xs, n, inc):
+    for a, b in _vp_windows(xs, n, inc):
+        yield a + b
+def b_two_yields(xs, n, inc):
+    for x in xs:
+        if x > n and not inc:
+            break
+        yield x + (n if x > n else x + 1)
+        if x > n:
+            break
+
 def a_neq_order(p, q):
     return [p, q]
 def b_neq_order(p, q):
@@ -863,7 +881,7 @@ EQUAL = ["helper", "raise_in_helper", "ite", "single_exit", "loop_append", "dict
          "gen_return", "counted_while", "join_fstr", "minmax_ite", "gen_display", "int_fold", "dict_call", "clamp_helper",
          "table_items", "star_list", "list_concat", "itemgetter2", "axis_helper", "table_member", "registry",
          "vararg_helper", "bool_flag", "record_property", "comp_after_subst", "search_helper", "bound_method",
-         "isdisjoint", "product_comp", "dict_copy_update", "shapely_functions", "star_through_helpers", "join_after_subst", "operator_table", "reduce_display"]
+         "isdisjoint", "product_comp", "dict_copy_update", "shapely_functions", "star_through_helpers", "join_after_subst", "operator_table", "reduce_display", "two_yields"]
 DIFFERENT = ["neq_filter", "neq_later_mutation", "neq_order", "neq_search_default", "neq_option", "neq_gen_stop", "neq_vararg", "neq_search_helper", "neq_property_guard", "neq_bound_method", "neq_product_order"]
 
 
